@@ -43,7 +43,7 @@ func vBlank(s string) bool {
 }
 
 //verif:witness H_C17_flatten end
-//verif:bound C17 quick totality: every string of length 0..3 over the 15-symbol alphabet 'Ab1{}=,"\\.[]/ -' through the real lexer, parser (ANTLR runtime executed from SSA) and listener; flattening: generated expressions Type{...} with 0..2 assignments, 4 path shapes, 5 value kinds (identifier, string with 0..2 characters each a plain character from {x, space, /, {, newline} or an escape \\" \\\\ \\/ \\b \\f \\n \\r \\t, integer, float, nested expression with 0..1 assignment), 3 spacing modes, optional trailing comma, duplicate keys
+//verif:bound C17 quick totality: every string of length 0..3 over the 15-symbol alphabet 'Ab1{}=,"\\.[]/ -' through the real lexer, parser (ANTLR runtime executed from SSA) and listener; flattening: generated expressions Type{...} with 0..2 assignments, 5 path shapes (incl. a field literally named 'type': the later assignment wins over the type name), 5 value kinds (identifier, string with 0..2 characters each a plain character from {x, space, /, {, newline} or an escape \\" \\\\ \\/ \\b \\f \\n \\r \\t, integer, float, nested expression with 0..1 assignment), 3 spacing modes, optional trailing comma, duplicate keys
 //verif:bound C17 thorough totality: every string of length 0..5 over the alphabet; flattening with 0..2 assignments (all later-value and spacing combinations) and nesting depth 2
 //verif:assume C17 inputs are ASCII (the engine converts symbolic strings to runes for ASCII bytes only); longer inputs and other alphabets are outside the bound
 //verif:assume C17 the ANTLR runtime and the generated recogniser are executed as they are (no stub); their adaptive-prediction caches start from the state left by the engine's init phase on every path
@@ -60,7 +60,7 @@ type vEx struct {
 	asgs []vAsg
 }
 
-var vPaths = [4]string{"a", "a.b", "a[0]", "a.b[1].c"}
+var vPaths = [5]string{"a", "a.b", "a[0]", "a.b[1].c", "type"}
 
 // vStringLit: a string literal the lexer admits and the text it denotes.
 func vStringLit(name string) (lit, want string) {
@@ -91,7 +91,7 @@ func vGenEx(name string, depth, maxAsg, maxDepth int) *vEx {
 	for i := 0; i < n; i++ {
 		var a vAsg
 		if i == 0 {
-			a.path = vPaths[vChoose(name+"path", 4)]
+			a.path = vPaths[vChoose(name+"path", 5)]
 			nk := 5
 			if depth >= maxDepth {
 				nk = 4
@@ -206,5 +206,18 @@ func H_C17_flatten() {
 			vAssert(ok && g == v, "path-maps-to-value-text-with-strings-unquoted")
 		}
 	}
+	vReach("end")
+}
+
+//verif:witness H_C17_sequence end
+//verif:bound C17 all sequences: a malformed input (8 shapes incl. those that make the recogniser panic internally) followed by a well-formed one: the second call is unaffected by the first
+// H_C17_sequence: Parse keeps no state between calls.
+func H_C17_sequence() {
+	vOpt("loop", 2000)
+	bad := [8]string{"}", "=", "1", "L{a=b{c}}", "L{a.b[=1}", "L{", "\"x\"", "L{a=1,,}"}[vChoose("bad", 8)]
+	m1, err1 := Parse(bad)
+	vAssert(m1 == nil && err1 != nil, "malformed-input-is-an-error-without-a-map")
+	m2, err2 := Parse("T{a=1}")
+	vAssert(err2 == nil && m2 != nil && m2["type"] == "T" && m2["a"] == "1" && len(m2) == 2, "a-later-well-formed-input-is-unaffected")
 	vReach("end")
 }
